@@ -13,11 +13,21 @@
   An optional "ignored": [timestamp…] lists the events of a type the simulator has no handler for that
   are also in the queue: the run is then `Sim.runI` (`AcnModel/Ignored.lean`), whose "event_history" holds
   the plug-in / unplug / recompute entries only.
+  Optional "fail_at": [period…] and / or "steps": [<sched>…] (`AcnModel/SimResume.lean`; not together with "ignored"):
+  the scheduler raises when entered in one of the periods `fail_at` (each once) and `run()` is called again on the
+  state the abort left (a JSON round trip in between is the identity on the model state, C09); before the first
+  `run()` one `Simulator.step(sched)` call per entry of "steps".  The answer is the outcome of the LAST `run()` call,
+  "views" holds EVERY view handed out (the failing calls included), plus
+    "aborts" : [{"iter","resolve","last_upd","queue_empty","invoked"}…] the states left by the aborted `run()` calls,
+    "step_results" : [[err|null, returned flag|null, iteration after the call]…],
+    "after_steps" : {"iter","resolve","last_upd","queue_empty"} the state the `step()` prefix left (when "steps" is given);
+  when a `step()` call raised, `run()` is not called: the answer is the state after that call with "err" = its error.
 -/
 import AcnModel.WireSim
 import AcnModel.SchedView
 import AcnModel.Ignored
 import AcnModel.NetEdits
+import AcnModel.SimResume
 open Lean Acn Acn.Wire Acn.EventCore Acn.Sim
 
 def jActive (e : Evse.Ev Float) : Json :=
@@ -79,17 +89,53 @@ def jInfra (i : Infra Float) : Json :=
               ("phases", jFs i.phases), ("voltages", jFs i.voltages),
               ("constraint_ids", jList jS i.constraintIds), ("station_ids", jList jS i.stationIds)]
 
+def jMid (s : Sim.State Float) : Json :=
+  Json.mkObj [("iter", jN s.core.iter), ("resolve", jB s.core.resolve), ("last_upd", jOpt jI s.core.lastUpd),
+              ("queue_empty", jB s.core.pending.isEmpty), ("invoked", jList jN s.core.invoked)]
+
+def jStepRes (r : Except StepErr Bool × Nat) : Json :=
+  match r.1 with
+  | .error e => Json.arr #[jS e.name, Json.null, jN r.2]
+  | .ok b => Json.arr #[Json.null, jB b, jN r.2]
+
+/-- interrupted / resumed and `step()`-prefixed simulations (`AcnModel/SimResume.lean`) -/
+def handleResume (cfg : Sim.Cfg Float) (sched : View Float → Except Err (Schedule Float)) (j : Json) :
+    Except String (Json × List (View Float)) := do
+  let ks ← match j.getObjVal? "fail_at" with
+    | .ok v => (← asArr v).mapM fun x => x.getNat?
+    | .error _ => pure []
+  let fuel := fuelFor cfg.core
+  match j.getObjVal? "steps" with
+  | .error _ =>
+    let r := Sim.runResume cfg sched fuel ks.length ks (Sim.init cfg)
+    pure ((jResult cfg r.result).setObjVal! "aborts" (jList jMid r.aborts), r.views)
+  | .ok sj =>
+    let scheds ← (← asArr sj).mapM parseSchedule
+    let r := Sim.stepsThenRun cfg sched fuel scheds ks (Sim.init cfg)
+    let base := fun (o : Json) => (o.setObjVal! "step_results" (jList jStepRes r.stepResults)).setObjVal! "after_steps" (jMid r.afterSteps)
+    match r.resumed with
+    | none =>
+      let e := r.stepResults.findSome? fun x => match x.1 with | .error e => some e.name | .ok _ => none
+      let o := Json.mkObj ([("err", jOpt jS e), ("fuel_exhausted", jB false)] ++ jSimState cfg r.afterSteps)
+      pure (base (o.setObjVal! "aborts" (Json.arr #[])), [])
+    | some rr => pure (base ((jResult cfg rr.result).setObjVal! "aborts" (jList jMid rr.aborts)), rr.views)
+
 def handle (j : Json) : Except String Json := do
   let cfg ← parseSimCfg j
   let sched ← parseSched (← j.getObjVal? "sched")
   let ign ← match j.getObjVal? "ignored" with
     | .ok v => (← asArr v).mapM fun x => x.getInt?
     | .error _ => pure []
-  let r := if ign.isEmpty then Sim.run cfg sched (fuelFor cfg.core) (Sim.init cfg)
-    else Sim.runI cfg sched ign (fuelForI cfg.core ign) (Sim.init cfg)
-  let vs := if ign.isEmpty then Sim.runViews cfg sched (fuelFor cfg.core) (Sim.init cfg)
-    else Sim.runViewsI cfg sched ign (fuelForI cfg.core ign) (Sim.init cfg)
-  let out := ((jResult cfg r).setObjVal! "views" (jList jView vs)).setObjVal! "infra" (jList jStationInfo (infra cfg))
+  let special := (j.getObjVal? "fail_at").toOption.isSome || (j.getObjVal? "steps").toOption.isSome
+  let (res, vs) ← if special then
+      if ign.isEmpty then handleResume cfg sched j else throw "fail_at / steps cannot be combined with ignored"
+    else
+      let r := if ign.isEmpty then Sim.run cfg sched (fuelFor cfg.core) (Sim.init cfg)
+        else Sim.runI cfg sched ign (fuelForI cfg.core ign) (Sim.init cfg)
+      let vs := if ign.isEmpty then Sim.runViews cfg sched (fuelFor cfg.core) (Sim.init cfg)
+        else Sim.runViewsI cfg sched ign (fuelForI cfg.core ign) (Sim.init cfg)
+      pure (jResult cfg r, vs)
+  let out := (res.setObjVal! "views" (jList jView vs)).setObjVal! "infra" (jList jStationInfo (infra cfg))
   match j.getObjVal? "net" with
   | .error _ => pure out
   | .ok nj =>
